@@ -28,8 +28,12 @@ RULE = ("clouds of 6..24 pairwise distinct points (jittered lattice or uniform d
         "reshape, Fortran-ordered copy, strided view of a doubled buffer (1-D and 2-D), reversed view, pandas Series with a "
         "scrambled index, nested lists (weights and query), weights in the data's shape or raveled; (extra) a third, large, "
         "varying coordinate array appended for fit and/or predict; (dtype) integer-valued coordinates / data / query as "
-        "int64 / int32; (qshape) query as 2-D, (1,n) against (n,), scalars, 0-d arrays, one-element arrays, and queries "
-        "with as many points as the data but another shape; (linear) fit(a d1 + b d2) against a fit(d1) + b fit(d2) with "
+        "int64 / int32, including int32 coordinates whose integer powers would overflow (|x|^degree >= 2^31, Trend 2 and 3); "
+        "(layout-series) pandas Series for coordinates, data and weights of VectorSpline2D and Chain(Vector, VectorSpline2D); "
+        "(qshape) query as 2-D, (1,n) against (n,), scalars, 0-d arrays, one-element arrays, and queries "
+        "with as many points as the data but another shape; (qbroadcast) for every gridder query easting / northing of "
+        "DIFFERENT sizes that broadcast - (a,) with (b,1), (1,a) with (b,1), (a,1) with (b,), scalar with (b,), (a,1,1) with "
+        "(1,b,1) - against the base execution on the raveled broadcast arrays; (linear) fit(a d1 + b d2) against a fit(d1) + b fit(d2) with "
         "a + b != 1, plus negative controls (median of neighbours) on which Coq must see the linearity test FAIL. "
         "Coq checks: output shape = model broadcast shape of the query shapes and size; |variant - base| <= 1e3 * 2^-52 * "
         "kappa * max(|data|, |prediction|) for least-squares gridders (kappa from numpy SVD of the scaled, weighted, "
@@ -49,9 +53,6 @@ ASSUMPTIONS = [
 ]
 TRUSTED = ["harness/c04.py (generators, variant construction, numpy SVD for kappa)"]
 
-FINDING_KEY = "C04-predict-rejects-broadcastable-query-of-different-sizes"
-FINDING_KEY_SERIES = "C04-VectorSpline2D-fit-rejects-pandas-Series-data"
-FINDING_KEY_INT32 = "C04-Trend-int32-coordinates-overflow-in-powers"
 
 
 # ---------------------------------------------------------------------------
@@ -164,12 +165,12 @@ GRIDDERS = {g.name: g for g in gridders()}
 # ---------------------------------------------------------------------------
 # problems
 # ---------------------------------------------------------------------------
-def cloud(rnd, n, integer=False, wide=False):
+def cloud(rnd, n, integer=False, wide=False, half=12):
     """pairwise distinct points in general position (or distinct integer lattice points); wide: extent >= 30"""
     if integer:
         pts = set()
         while len(pts) < n:
-            pts.add((rnd.randint(-12, 12), rnd.randint(-12, 12)))
+            pts.add((rnd.randint(-half, half), rnd.randint(-half, half)))
         pts = list(pts)
         rnd.shuffle(pts)
         return arr([p[0] for p in pts]), arr([p[1] for p in pts]), 1.0
@@ -228,11 +229,13 @@ def make_weights(rnd, n, ncomp):
     return [arr([10.0 ** rnd.uniform(-1, 1) for _ in range(n)]) for _ in range(ncomp)]
 
 
-def problem(rnd, g, n=None, m=None, int_coords=False, int_data=False, int_query=False, weighted=None):
+def problem(rnd, g, n=None, m=None, int_coords=False, int_data=False, int_query=False, weighted=None, half=12):
     n = n or rnd.choice([6, 8, 9, 10, 12, 12, 15, 16, 18, 20, 24])
     n = max(n, g.minpts)
     m = m or rnd.choice([1, 2, 3, 4, 6, 6, 8, 9, 10, 12])
-    e, nn, scale = cloud(rnd, n, int_coords, wide=int_query)
+    e, nn, scale = cloud(rnd, n, int_coords, wide=int_query, half=half)
+    if int_coords:
+        scale = float(half) / 12.0
     qe, qn = inside_queries(rnd, e, nn, m, int_query)
     d = make_data(rnd, n, g.ncomp, int_data)
     if weighted is None:
@@ -338,6 +341,12 @@ def build_inputs(spec, variant):
         weights = [relayout(c, wshape, st.get("w", "c")) for c in w]
     qse = tuple(v.get("q_shape_e", (qe.size,)))
     qsn = tuple(v.get("q_shape_n", (qn.size,)))
+    if v.get("q_axis_e") is not None:
+        # query arrays of DIFFERENT sizes that broadcast to the base's query points
+        ae, an = arr(v["q_axis_e"]), arr(v["q_axis_n"])
+        be, bn = np.broadcast_arrays(ae.reshape(qse), an.reshape(qsn))
+        assert np.array_equal(be.ravel(), qe) and np.array_equal(bn.ravel(), qn)
+        qe, qn = ae, an
     query = [relayout(qe, qse, st.get("qe", "c"), dt.get("qe")), relayout(qn, qsn, st.get("qn", "c"), dt.get("qn"))]
     if v.get("extra_query") is not None:
         query += [relayout(arr(x), qse, "c") for x in v["extra_query"]]
@@ -476,9 +485,6 @@ def v_layout(rnd, spec, g):
         pool = STYLES_1D
     for key in ["e", "n"] + ["d%d" % i for i in range(spec["ncomp"])]:
         v["styles"][key] = rnd.choice(pool)
-        # VectorSpline2D.fit calls data.ravel(): pandas >= 3 Series have no ravel (reported finding, opt-in stream)
-        while key.startswith("d") and g.name in SMALL_VEC and v["styles"][key] == "series":
-            v["styles"][key] = rnd.choice(pool)
     if spec["w"] is not None:
         if two_d and rnd.random() < 0.3:
             v["w_ravel"] = True
@@ -531,6 +537,44 @@ def v_qshape(rnd, spec, i):
     return {"q_shape_e": [1, m], "q_shape_n": [1, m]}
 
 
+def broadcast_problem(rnd, g, k, n=None):
+    """a problem whose query points are the broadcast of two arrays of different sizes, and the recipe that passes
+    the two arrays themselves: (b,1) northing with (a,) easting, (1,a) easting, scalar against array, 3-D ..."""
+    a, b = rnd.choice([(4, 3), (3, 2), (2, 5), (5, 2), (3, 4), (2, 3), (3, 3)])
+    spec = problem(rnd, g, n=n, m=max(a, b))
+    pool_e, pool_n = spec["qe"], spec["qn"]
+    # axes: eastings / northings of interior points; every combination must stay inside the hull for Linear / Cubic
+    e, nn = arr(spec["e"]), arr(spec["n"])
+    ce, cn = float(np.mean(e)), float(np.mean(nn))
+    he, hn = 0.12 * float(np.ptp(e)), 0.12 * float(np.ptp(nn))
+    ax_e = sorted(ce + he * rnd.uniform(-1, 1) for _ in range(a))
+    ax_n = sorted(cn + hn * rnd.uniform(-1, 1) for _ in range(b))
+    if k == 0:
+        she, shn = [a], [b, 1]
+    elif k == 1:
+        she, shn = [1, a], [b, 1]
+    elif k == 2:
+        she, shn = [a, 1], [b]
+    elif k == 3:
+        ax_e, she, shn = ax_e[:1], [], [b]            # a scalar easting against an array of northings
+    else:
+        she, shn = [a, 1, 1], [1, b, 1]
+    be, bn = np.broadcast_arrays(arr(ax_e).reshape(she), arr(ax_n).reshape(shn))
+    spec["qe"], spec["qn"] = be.ravel().tolist(), bn.ravel().tolist()
+    v = {"q_axis_e": list(ax_e), "q_axis_n": list(ax_n), "q_shape_e": she, "q_shape_n": shn}
+    if k == 3:
+        v["styles"] = {"qe": rnd.choice(["pyscalar", "0d"])}
+    elif rnd.random() < 0.4:
+        v["styles"] = {"qn": rnd.choice(["strided", "reversed", "list"])}
+    return spec, v
+
+
+def inside_hull(spec):
+    from scipy.spatial import Delaunay
+    tri = Delaunay(np.column_stack([spec["e"], spec["n"]]))
+    return bool(np.all(tri.find_simplex(np.column_stack([spec["qe"], spec["qn"]])) >= 0))
+
+
 def v_dtype(rnd, what, i):
     it = ["int64", "int32"][i % 2]
     v = {"dtype": {}}
@@ -543,20 +587,6 @@ def v_dtype(rnd, what, i):
         v["dtype"]["qe"] = it
         v["dtype"]["qn"] = it if i % 3 != 1 else None
     v["dtype"] = {k: x for k, x in v["dtype"].items() if x}
-    return v
-
-
-def safe_int(g, spec, v):
-    """Trend raises integer coordinates to integer powers in their own dtype: int32 overflows silently once
-    |coordinate|^degree >= 2^31 (reported finding, opt-in stream).  The default generator uses int64 there."""
-    if not (g.model and g.model[0] == "trend"):
-        return v
-    deg = max(1, g.model[1])
-    for keys, vals in ((("e", "n"), spec["e"] + spec["n"]), (("qe", "qn"), spec["qe"] + spec["qn"])):
-        if max(abs(x) for x in vals) ** deg >= 2 ** 31 / 4:
-            for k in keys:
-                if v["dtype"].get(k) == "int32":
-                    v["dtype"][k] = "int64"
     return v
 
 
@@ -641,7 +671,7 @@ def generate(tier, seed):
             cases.append(pair_case(g, spec, v_qshape(rnd, spec, i + rep), "qshape/" + name))
             # (4) integer dtypes: query coordinates for every gridder
             spec = problem(rnd, g, n=npts(rnd, name), int_query=True)
-            cases.append(pair_case(g, spec, safe_int(g, spec, v_dtype(rnd, ["query"], i)), "dtype-query/" + name))
+            cases.append(pair_case(g, spec, v_dtype(rnd, ["query"], i), "dtype-query/" + name))
             # (6) linearity
             if g.linear:
                 cases.append(linear_case(rnd, g))
@@ -650,7 +680,7 @@ def generate(tier, seed):
             g = GRIDDERS["trend-%d" % deg]
             for j, what in enumerate((["data"], ["coords"], ["coords", "data"], ["coords", "data", "query"])):
                 spec = problem(rnd, g, int_coords="coords" in what, int_data="data" in what, int_query="query" in what)
-                cases.append(pair_case(g, spec, safe_int(g, spec, v_dtype(rnd, what, deg + j + rep)), "dtype-fit/" + g.name))
+                cases.append(pair_case(g, spec, v_dtype(rnd, what, deg + j + rep), "dtype-fit/" + g.name))
         for j, name in enumerate(["spline", "spline-damped", "vspline", "knn-mean", "knn-median", "linear", "cubic", "chain-trend-spline",
                                   "vector-knn-linear"]):
             g = GRIDDERS[name]
@@ -658,6 +688,32 @@ def generate(tier, seed):
             # integer lattice clouds tie for k-d tree queries only at lattice queries: the query stays non-integer here
             spec = problem(rnd, g, n=npts(rnd, name), int_coords="coords" in what, int_data="data" in what)
             cases.append(pair_case(g, spec, v_dtype(rnd, what, j + rep), "dtype-fit/" + name))
+        # query easting / northing of different sizes that broadcast (every gridder)
+        for gi, name in enumerate(ALL):
+            g = GRIDDERS[name]
+            for k in [[0, 1, 2, 4][(gi + rep) % 4]] + ([3] if (gi + rep) % 3 == 0 else []):
+                for _ in range(50):
+                    spec, v = broadcast_problem(rnd, g, k, n=npts(rnd, name))
+                    if inside_hull(spec):
+                        break
+                cases.append(pair_case(g, spec, v, "qbroadcast/" + name))
+        # pandas Series for the data and weights of the vector spline gridders
+        for name in sorted(SMALL_VEC):
+            g = GRIDDERS[name]
+            spec = problem(rnd, g, n=npts(rnd, name), weighted=True if g.weights else None)
+            st = {"d0": "series", "d1": "series", "e": rnd.choice(["c", "series"]), "n": "series"}
+            if spec["w"] is not None:
+                st["w"] = "series"
+            cases.append(pair_case(g, spec, {"styles": st}, "layout-series/" + name))
+        # int32 coordinates whose integer powers overflow int32 (|x|^degree >= 2^31): Trend 2, 3 and the chains using Trend
+        for j, (name, half) in enumerate([("trend-2", 90000), ("trend-3", 3000), ("trend-3", 2000), ("trend-2", 60000)]):
+            g = GRIDDERS[name]
+            what = [["query"], ["coords"], ["coords", "query"], ["coords", "data", "query"]][(j + rep) % 4]
+            spec = problem(rnd, g, n=rnd.choice([12, 15, 16, 20]), int_coords=True, int_query=True, int_data="data" in what, half=half)
+            v = {"dtype": {}}
+            for key in (["e", "n"] if "coords" in what else []) + (["qe", "qn"] if "query" in what else []) + (["d"] if "data" in what else []):
+                v["dtype"][key] = "int32"
+            cases.append(pair_case(g, spec, v, "dtype-int32-powers/" + name))
         # same number of query points as data points, other shape (a reshape to the DATA's shape would go unnoticed elsewhere)
         for name in ["spline", "trend-1", "knn-mean", "vspline"]:
             g = GRIDDERS[name]
@@ -672,66 +728,7 @@ def generate(tier, seed):
             if c is not None:
                 cases.append(c)
                 nctl += 1
-    if os.environ.get("VERIF_C04_FINDINGS"):
-        for name in ["spline", "trend-1", "knn-mean", "vspline", "linear"]:
-            g = GRIDDERS[name]
-            spec = problem(rnd, g, m=3)
-            spec["qe"] = spec["qe"] + spec["qe"][:1]
-            v = {"q_shape_e": [4], "q_shape_n": [3, 1]}
-            cases.append(finding_case(g, spec, v))
-        for name in sorted(SMALL_VEC):
-            g = GRIDDERS[name]
-            spec = problem(rnd, g, n=8)
-            c = pair_case(g, spec, {"styles": {"d0": "series", "d1": "series"}}, "FINDING-vspline-series-data")
-            cases.append(c)
-        g = GRIDDERS["trend-3"]
-        spec = problem(rnd, g, n=12, m=4)
-        for k in ("e", "n", "qe", "qn"):
-            spec[k] = [float(round(1000 + 900 * x / max(1.0, max(abs(y) for y in spec[k])))) + i for i, x in enumerate(spec[k])]
-        cases.append(pair_case(g, spec, {"dtype": {"qe": "int32", "qn": "int32"}}, "FINDING-trend-int32-overflow"))
-        cases.append(pair_case(g, spec, {"dtype": {"e": "int32", "n": "int32"}}, "FINDING-trend-int32-overflow"))
     return cases
-
-
-def finding_case(g, spec, v):
-    """OPT-IN (VERIF_C04_FINDINGS=1): a (m,1) northing against a (n,) easting.  The property wants the prediction on the
-    broadcast (m,n) grid; Spline / Trend / KNeighbors / VectorSpline2D ravel the two arrays separately and raise."""
-    spec = dict(spec)
-    spec["variant"] = v
-    qe, qn = arr(spec["qe"]), arr(spec["qn"])
-    full = dict(spec)
-    E, N = np.meshgrid(qe, qn)
-    full["qe"], full["qn"] = E.ravel().tolist(), N.ravel().tolist()
-    base = execute(full)
-    inp = {"gridder": g.name, "estimator": spec["expr"], "variant": v, "easting": spec["e"], "northing": spec["n"], "data": spec["d"],
-           "query_easting": spec["qe"], "query_northing": spec["qn"]}
-    repro = mk_repro(spec)
-    try:
-        coords, data, weights, _ = build_inputs(spec, None)
-        est = vd_eval(spec["expr"])
-        with warnings.catch_warnings():
-            warnings.simplefilter("ignore")
-            est.fit(coords, data, weights)
-            pred = est.predict((qe, qn.reshape(-1, 1)))
-        comps = list(pred) if isinstance(pred, tuple) else [pred]
-        flat = np.concatenate([np.asarray(c, dtype=float).ravel() for c in comps])
-        tol, kap, skip = tolk(g, spec, v)
-        term = "c04_pair %s %s %s %s %s %s %s %s" % (tol, cD(data_scale(spec)), cN(spec["ncomp"]), dl(base["flat"]), dl(flat),
-                                                     nl([qe.size]), nl([qn.size, 1]), nl(np.shape(comps[0])))
-        out = {"variant": flat.tolist()}
-    except Exception as ex:  # noqa
-        term, out = "c04_raised", {"variant_raised": "%s: %s" % (type(ex).__name__, str(ex)[:200])}
-    return Case(inp, out, term, repro, "FINDING-broadcast-query", nontrivial=True)
-
-
-def finding_key(case):
-    if case.kind == "FINDING-broadcast-query":
-        return FINDING_KEY
-    if case.kind == "FINDING-vspline-series-data":
-        return FINDING_KEY_SERIES
-    if case.kind == "FINDING-trend-int32-overflow":
-        return FINDING_KEY_INT32
-    return None
 
 
 def search(dis, tier, seed):
